@@ -569,8 +569,12 @@ def compare(ctx, reqs, label, stats, env=None):
                 else:
                     try:
                         w = math.pow(to_double(xs[0]), to_double(xs[1]))
-                    except (ValueError, OverflowError, ZeroDivisionError):
-                        w = math.nan
+                    except OverflowError:                     # CPython raises where C pow returns an infinity
+                        w = math.inf
+                    except ZeroDivisionError:                 # 0 to a negative power: C pow returns +inf
+                        w = math.inf
+                    except ValueError:                        # CPython: also for 0 to a negative power (C pow: +inf)
+                        w = math.inf if (xs[0] == 0 and xs[1] < 0) else math.nan
                     key = "expt with a non-integer exact exponent: %s C pow bit for bit" % (
                         "equals" if norm_float_text(raw) == ("f:nan" if math.isnan(w) else f2hex(w)) else "DIFFERS from")
                     stats["notes"][key] = stats["notes"].get(key, 0) + 1
